@@ -79,6 +79,11 @@ var c40fams = []c40fam{
 		reads: []int{4}, closeBody: true, ret: true},
 	{name: "ids", depthQ: 5, depthT: 7, maxSyn: 3, maxConc: 2, syn: []string{"post", "get"}, badSyn: []string{"dup", "low", "even"},
 		data: []c40dv{{"D1", 1, false}}, badData: true, ret: true, rst: true},
+	// SYN_STREAMs on a valid new id that are refused at request level (missing :method, bad :scheme,
+	// HEAD with a body, bad content-length) still use up their id: SYN_STREAM on the same id, on a
+	// lower odd id and on the next id afterwards, DATA on the refused id
+	{name: "idsreq", depthQ: 5, depthT: 6, maxSyn: 3, maxConc: 2, syn: []string{"get", "nomethod", "badscheme", "headbody", "badcl"},
+		badSyn: []string{"dup", "low"}, badData: true, ret: true},
 	{name: "out", depthQ: 6, depthT: 7, maxSyn: 1, maxConc: 2, syn: []string{"get"}, writes: []int{20}, ret: true, rst: true,
 		wuStream: []uint32{1, 12, c40maxInt31}, settings: []uint32{0, 8}},
 	{name: "outx", depthQ: 5, depthT: 6, maxSyn: 1, maxConc: 2, syn: []string{"get"}, writes: []int{20},
@@ -145,6 +150,7 @@ type c40exp struct {
 	mustReject  uint32
 	rejectClass string
 	badSynPath  string
+	synOn       *c40stream // well-formed SYN_STREAM on a new id (outcome recorded, not judged)
 }
 
 type c40event struct {
@@ -201,8 +207,19 @@ func c40events(f *c40fam, e *s3env, m *c40model) []c40event {
 					e.synStream(s.id, "GET", s.path, true)
 				case "cl2":
 					e.synStream(s.id, "POST", s.path, false, "content-length", "2")
+				// well-formed, NEW stream id, but the request is refused at request level: the id is
+				// used up all the same (a stream id is valid only if it is larger than the id of every
+				// SYN_STREAM received before), which is what the later dup/low/next SYNs test
+				case "nomethod":
+					e.synStream(s.id, "", s.path, false)
+				case "badscheme":
+					e.synStream(s.id, "POST", s.path, false, headerScheme, "ftp")
+				case "headbody":
+					e.synStream(s.id, "HEAD", s.path, false)
+				case "badcl":
+					e.synStream(s.id, "POST", s.path, false, "content-length", "-1")
 				}
-				return c40exp{ev: "SYN" + kind}
+				return c40exp{ev: "SYN" + kind, synOn: s}
 			}})
 		}
 	}
@@ -488,6 +505,9 @@ func c40observe(r *vk.Run, id string, hist []string, x c40exp, e *s3env, m *c40m
 	closed := e.connClosed() || e.serveDone()
 	if closed {
 		m.connDead = true
+	}
+	if s := x.synOn; s != nil && s.kind != "post" && s.kind != "get" && s.kind != "cl2" {
+		r.Outcome(fmt.Sprintf("syn-%s:rst=%v,handler=%v", s.kind, s.sRst, e.handler(s.path) != nil))
 	}
 	if x.mustReject != 0 {
 		r.Outcome(fmt.Sprintf("%s:rst=%v,goaway=%v,closed=%v", x.rejectClass, rstOn[x.mustReject] != 0, goaway, closed))
